@@ -90,7 +90,9 @@ private:
 
     [[nodiscard]] static constexpr auto weekday_from_days(int tp) noexcept -> etl::uint8_t
     {
-        return static_cast<etl::uint8_t>(tp >= -4 ? (tp + 4) % 7 : (tp + 5) % 7 + 6);
+        // Widened first: tp + 4 overflows int for the last four representable day counts.
+        auto const t = static_cast<long long>(tp);
+        return static_cast<etl::uint8_t>(t >= -4 ? (t + 4) % 7 : (t + 5) % 7 + 6);
     }
 
     etl::uint8_t _wd;
